@@ -50,7 +50,7 @@ func VerifWithPrefixLengths(tokens []string, begin int) []Token {
 	return withPrefixLengths(tokens, begin)
 }
 
-func VerifRangeParts(r Range) (int, int) { return r.begin, r.end }
+func VerifRangeParts(r Range) (int, int)  { return r.begin, r.end }
 func VerifMakeRange(begin, end int) Range { return Range{begin, end} }
 func VerifNewRange(begin, end int) Range  { return newRange(begin, end) }
 
